@@ -14,8 +14,10 @@ decides over them that every write happens under `Lock`, every read under `RLock
 only called with a sufficient lock, except for an explicit list; `discipline_implies_exclusion`
 shows that under reader/writer-lock semantics a holder of the write lock excludes every other
 holder, so two conflicting accesses that both follow the discipline are never simultaneously
-enabled. NOT covered: the Go memory model itself, `SetConcurrent` propagation (every value
-reachable from a shared value is marked before publication — checked by the suite only), atomics
+enabled. `stored_values_marked` / `setconcurrent_reaches_referents` / `observers_copy_on_write` decide
+the `SetConcurrent` propagation and copy-on-write facts extracted from the same sources.
+NOT covered: the Go memory model itself, propagation through paths other than the extracted
+storing methods (e.g. closure slots written by the interpreter), atomics
 (`copyCount`), values other than SuObject/SuRecord/Frame.Shared, and the formal link between the
 extracted facts and an operational semantics of the methods (the facts are an abstraction computed
 by tools/extract/t_lockfacts.go; its reading of the source is trusted).
@@ -93,6 +95,45 @@ theorem frame_shared_guarded :
     ∀ m ∈ methods, m.recv = "Frame" →
       m.name ∈ ["getSharedSlot", "setSharedSlot", "getSetSharedSlot"] →
       ∀ a ∈ m.accs, a.field = "shared.values" → a.held = .w := by decide
+
+/-- SetConcurrent propagation into containers (regenerated `storeFacts`): no exported method of
+SuObject / SuRecord stores a `Value` parameter into the receiver (assignment, `named.Put`,
+`observers.Push`, or handing it to a helper that stores it) at a point where the parameter has
+not been marked with `SetConcurrent()` under the `concurrent` / `Lock()` guard. So every value
+that becomes reachable from a shared container through these methods is itself made concurrent.
+(Syntactic, per method; the helpers `add` and `attachRule` rely on their callers, see
+`gen_store_facts_live`.) -/
+theorem stored_values_marked : ∀ f ∈ storeFacts, f.2.2.1 = true → f.2.2.2 = false := by decide
+
+/-- the analysis is not vacuous: it sees the storing methods, and it does flag the helpers that
+store without marking -/
+theorem gen_store_facts_live :
+    ("SuObject.add", "val", false, true) ∈ storeFacts ∧
+    ("SuRecord.attachRule", "callable", false, true) ∈ storeFacts ∧
+    (∀ m ∈ [("SuObject.Add", "val"), ("SuObject.Insert", "val"), ("SuObject.Put", "key"),
+            ("SuObject.Put", "val"), ("SuObject.Set", "val"), ("SuObject.CompareAndSet", "newval"),
+            ("SuObject.GetPut", "v"), ("SuObject.SetDefault", "def"), ("SuRecord.Put", "val"),
+            ("SuRecord.Observer", "ofn"), ("SuRecord.AttachRule", "callable")],
+       (m.1, m.2, true, false) ∈ storeFacts) := by decide
+
+/-- SetConcurrent reaches everything a shared value refers to: a closure marks its `this` before
+any early return and marks its shared variables; an object marks list members, named keys and
+values and the default value; a record marks attached rules, observers (also the active ones) and
+its members. (Order/presence of the marking calls in the source.) -/
+theorem setconcurrent_reaches_referents :
+    markedBeforeReturn (eventsOf "SuClosure.SetConcurrent") "mark:this" = true ∧
+    (eventsOf "SuClosure.SetConcurrent").contains "mark:shared.values" = true ∧
+    (∀ m ∈ ["mark:list", "mark:named", "mark:defval"], m ∈ eventsOf "SuObject.SetChildConc") ∧
+    "children" ∈ eventsOf "SuObject.SetConcurrent" ∧
+    (∀ m ∈ ["mark:attachedRules", "mark:observers.List", "mark:activeObservers.List", "children"],
+       m ∈ eventsOf "SuRecord.SetConcurrent") := by decide
+
+/-- the observer list is copy-on-write: `Observer` and `RemoveObserver` clone the list before
+changing it, so a notification round that is iterating the old list (with the lock released
+around each callback) is not disturbed -/
+theorem observers_copy_on_write :
+    (∀ f ∈ cowFacts, f.2 = true) ∧
+    ("SuRecord.Observer", true) ∈ cowFacts ∧ ("SuRecord.RemoveObserver", true) ∈ cowFacts := by decide
 
 /-- Under reader/writer-lock semantics (`sync.RWMutex` as a transition system) every reachable lock
 state has no reader next to a writer, and then: while a writer holds the lock neither `Lock` nor
